@@ -317,13 +317,13 @@ def projection(ctx, res):
     ev = och.args.args[0].arg
     for side in ("old", "new"):
         guards = [n for n in ast.walk(och) if isinstance(n, ast.If)
-                  and f"{ev}.{side}" in norm(n.test)
+                  and f"{ev}.{side}" in norm(_xl2(och, n.test))
                   and _is_unobservable_test(mod, n.test)]
         ok = False
         for gd in guards:
             for c in _aorn_calls(gd):
                 kws = {k.arg: k.value for k in c.keywords}
-                if norm(kws.get("object")) == f"{ev}.{side}":
+                if norm(_xl2(och, kws.get("object"))) == f"{ev}.{side}":
                     ok = True
             # guard-clause form: `if not <filter>(event.side): return`
             # followed, in the same block, by the (un)hooking call
@@ -335,7 +335,8 @@ def projection(ctx, res):
                     for later in blk[blk.index(gd) + 1:]:
                         for c in _aorn_calls(later):
                             kws = {k.arg: k.value for k in c.keywords}
-                            if norm(kws.get("object")) == f"{ev}.{side}":
+                            if norm(_xl2(och, kws.get("object"))) == \
+                                    f"{ev}.{side}":
                                 ok = True
         res.oblige(ok, f"observer_change_handler:guard:{side}", mod.loc(och),
                    f"the {side} value is (un)hooked without the "
